@@ -20,7 +20,7 @@ func (c07) Budget(tier string) (int, int) {
 	if tier == "thorough" {
 		return 60000000, 600
 	}
-	return 60000, 25
+	return 60000, 90
 }
 func (c07) Rule() string {
 	return "seeded scenarios: 1-4 HandleArrayValues/HandleObjectValues calls on generated / mutated / deep documents, with no Buffer or with one Buffer reused across the calls of the scenario (sometimes used on a 10,001..30,000-deep document first), through a HandlerFunc adapter or a struct handler, each with a decision tape that makes the simulator-owned handler decline (return 0), consume (return the member's exact end as computed by the reference parser) or run a nested traversal, per callback; containers of <= 8 members get every 2^n decline/consume mix in the thorough tier. A run is non-trivial when at least one callback took a decision; distinct = distinct hashes of (operation kind, document class, verdict, per-callback decision) sequences."
